@@ -2,8 +2,10 @@
    Only statements here; proofs are in Flow/SchedulerFacts.v; the model, the trace monitor and the
    log/query vocabulary are in Flow/Scheduler.v.
 
-   [run D spe (init D t0) ls = Some s] says "ls is a label sequence the scheduler model can produce"
-   (D = slot duration in ns, spe = slots per epoch, t0 = clock at start, ns after genesis); the
+   [run D spe fm ff (init D t0) ls = Some s] says "ls is a label sequence the scheduler model can
+   produce" (D = slot duration in ns, spe = slots per epoch, fm = feature flags: FOff / FOn =
+   fetch_att_on_block / FOnDelay = fetch_att_on_block_with_delay, ff = a fetch-only function is
+   registered, t0 = clock at start, ns after genesis); the
    correspondence check establishes that the label sequences recorded from core/scheduler are of that
    kind.  [wf_trace spe ls] is the assumption on the beacon node: attester and proposer duties answered
    for epoch e lie in epoch e.  The monitor keeps a log of the successful duties answers ([item]s: kind,
@@ -15,16 +17,17 @@ Import ListNotations.
 Local Open Scope N_scope.
 
 (* Every well-formed trace of the model passes the trace monitor that transcribes the property. *)
-Theorem C15_monitor : forall D spe, 0 < D -> 0 < spe -> forall t0 ls s,
-  wf_trace spe ls = true -> run D spe (init D t0) ls = Some s -> monitor D spe t0 ls = true.
+Theorem C15_monitor : forall D spe fm ff, 0 < D -> 0 < spe -> forall t0 ls s,
+  wf_trace spe ls = true -> run D spe fm ff (init D t0) ls = Some s -> monitor D spe fm t0 ls = true.
 Proof. exact run_monitor. Qed.
 Print Assumptions C15_monitor.
 
-(* trigger_at_most_once: in no history is a duty (type, slot) triggered twice. *)
-Theorem C15_trigger_at_most_once : forall D spe, 0 < D -> 0 < spe -> forall t0 ls s,
-  wf_trace spe ls = true -> run D spe (init D t0) ls = Some s ->
-  NoDup (map trig_duty (all_triggers ls)).
-Proof. intros D spe HD Hs t0 ls s Hwf H. exact (trigger_at_most_once D spe t0 ls (run_monitor D spe HD Hs t0 ls s Hwf H)). Qed.
+(* trigger_at_most_once: in no history are the subscribers of a duty (type, slot) called twice --
+   counting the triggers of the ticks and, with a flag on, the attester duties released from waiting. *)
+Theorem C15_trigger_at_most_once : forall D spe fm ff, 0 < D -> 0 < spe -> forall t0 ls s,
+  wf_trace spe ls = true -> run D spe fm ff (init D t0) ls = Some s ->
+  NoDup (trig_duties ls).
+Proof. intros D spe fm ff HD Hs t0 ls s Hwf H. exact (trigger_at_most_once D spe fm t0 ls (run_monitor D spe fm ff HD Hs t0 ls s Hwf H)). Qed.
 Print Assumptions C15_trigger_at_most_once.
 
 (* offset_respected + defset_equals_bn: a tick of slot t is not before the slot starts; every trigger
@@ -32,18 +35,24 @@ Print Assumptions C15_trigger_at_most_once.
    function slot start + the type's offset (attester 1/3, aggregator and sync contribution 2/3 of the
    slot, proposer: no delay), and its definition set is exactly the query over the beacon node's
    answers logged so far (non-empty, one definition per public key); every duty with a non-empty
-   query is triggered. *)
-Theorem C15_tick_triggers : forall D spe, 0 < D -> 0 < spe -> forall t0 ls s,
-  wf_trace spe ls = true -> run D spe (init D t0) ls = Some s ->
+   query is triggered -- except, with a feature flag on ([fire_later]), the attester duty: it is not
+   in the tick's output at all but starts waiting ([g_pend]) until [att_due] = slot start + 1/3 slot
+   (+300ms with fetch_att_on_block_with_delay); see C15_waiting_* below. *)
+Theorem C15_tick_triggers : forall D spe fm ff, 0 < D -> 0 < spe -> forall t0 ls s,
+  wf_trace spe ls = true -> run D spe fm ff (init D t0) ls = Some s ->
   forall pre t sc outs post, ls = pre ++ LTick t sc outs :: post ->
-  t * D <= now_after D spe t0 pre /\
+  t * D <= now_after D spe fm t0 pre /\
   (forall tr, In tr outs ->
      In (t_ty tr) types /\ t_slot tr = t /\ t_deadline tr = deadline D (t_ty tr) t /\
      t_defs tr <> [] /\ NoDup (map fst (t_defs tr)) /\
-     (forall x, In x (t_defs tr) <-> In x (query spe (log_at D spe t0 pre t sc) (t_ty tr, t)))) /\
-  (forall ty, In ty types -> query spe (log_at D spe t0 pre t sc) (ty, t) <> [] ->
-     exists tr, In tr outs /\ t_ty tr = ty /\ t_slot tr = t).
-Proof. intros D spe HD Hs t0 ls s Hwf H pre t sc outs post E. exact (tick_triggers D spe t0 ls pre t sc outs post (run_monitor D spe HD Hs t0 ls s Hwf H) E). Qed.
+     (forall x, In x (t_defs tr) <-> In x (query spe (log_at D spe fm t0 pre t sc) (t_ty tr, t))) /\
+     fire_later fm (t_ty tr) = false) /\
+  (forall ty, In ty types -> query spe (log_at D spe fm t0 pre t sc) (ty, t) <> [] -> fire_later fm ty = false ->
+     exists tr, In tr outs /\ t_ty tr = ty /\ t_slot tr = t) /\
+  (flags_on fm = true -> query spe (log_at D spe fm t0 pre t sc) (Attester, t) <> [] ->
+     In (t, query spe (log_at D spe fm t0 pre t sc) (Attester, t), att_due D fm t)
+        (g_pend (ghost_after D spe fm (ginit t0) (pre ++ [LTick t sc outs])))).
+Proof. intros D spe fm ff HD Hs t0 ls s Hwf H pre t sc outs post E. exact (tick_triggers D spe fm t0 ls pre t sc outs post (run_monitor D spe fm ff HD Hs t0 ls s Hwf H) E). Qed.
 Print Assumptions C15_tick_triggers.
 
 (* The deadlines, spelled out. *)
@@ -62,8 +71,8 @@ Print Assumptions C15_offsets.
    aggregator and proposer definitions are for exactly this slot, sync contribution definitions for
    the epoch of the answer.  Hence never for an unknown or inactive validator, a validator outside the
    cluster, a wrong public key or an unassigned slot. *)
-Theorem C15_only_assigned : forall D spe, 0 < D -> 0 < spe -> forall t0 ls s,
-  wf_trace spe ls = true -> run D spe (init D t0) ls = Some s ->
+Theorem C15_only_assigned : forall D spe fm ff, 0 < D -> 0 < spe -> forall t0 ls s,
+  wf_trace spe ls = true -> run D spe fm ff (init D t0) ls = Some s ->
   forall pre t sc outs post tr pk e, ls = pre ++ LTick t sc outs :: post ->
   In tr outs -> In (pk, e) (t_defs tr) ->
   exists t' sc' outs' rn slot vals v,
@@ -77,8 +86,8 @@ Theorem C15_only_assigned : forall D spe, 0 < D -> 0 < spe -> forall t0 ls s,
     | OtherType => False
     end.
 Proof.
-  intros D spe HD Hs t0 ls s Hwf H pre t sc outs post tr pk e E.
-  exact (triggered_only_assigned D spe Hs t0 ls pre t sc outs post tr pk e (run_monitor D spe HD Hs t0 ls s Hwf H) E).
+  intros D spe fm ff HD Hs t0 ls s Hwf H pre t sc outs post tr pk e E.
+  exact (triggered_only_assigned D spe fm Hs t0 ls pre t sc outs post tr pk e (run_monitor D spe fm ff HD Hs t0 ls s Hwf H) E).
 Qed.
 Print Assumptions C15_only_assigned.
 
@@ -97,32 +106,35 @@ Print Assumptions C15_later_answers_never_alter.
 
 (* trigger_exactly_once_if_resolved_before: if an answer logged in the prefix pre1 assigns validator pk
    to duty (ty, t) (any answer, also one of a resolution that failed later on), no reorg event is
-   handled between that point and the tick of slot t, and that tick is delivered, then the duty is
-   triggered at that tick with a definition for pk, and that trigger is the only one of the duty in the
-   whole history. *)
-Theorem C15_trigger_exactly_once_if_resolved_before : forall D spe, 0 < D -> 0 < spe -> forall t0 ls s,
-  wf_trace spe ls = true -> run D spe (init D t0) ls = Some s ->
+   handled between that point and the tick of slot t, and that tick is delivered, then at that tick the
+   duty is triggered with a definition for pk -- or, for the attester duty with a flag on, starts waiting
+   with such a definition (released by C15_waiting_released). By C15_trigger_at_most_once that is the only
+   call of the duty's subscribers in the whole history. *)
+Theorem C15_trigger_exactly_once_if_resolved_before : forall D spe fm ff, 0 < D -> 0 < spe -> forall t0 ls s,
+  wf_trace spe ls = true -> run D spe fm ff (init D t0) ls = Some s ->
   forall pre1 mid t sc outs post it ty pk e,
   ls = pre1 ++ mid ++ LTick t sc outs :: post ->
   forallb (fun l => negb (is_reorg l)) mid = true ->
-  In it (g_log (ghost_after D spe (ginit t0) pre1)) -> In ((ty, t), (pk, e)) (grants spe it) ->
-  exists tr, In tr outs /\ t_ty tr = ty /\ t_slot tr = t /\ has_pk pk (t_defs tr) = true /\
-    (forall tr', In tr' (all_triggers ls) -> trig_duty tr' = (ty, t) -> tr' = tr).
+  In it (g_log (ghost_after D spe fm (ginit t0) pre1)) -> In ((ty, t), (pk, e)) (grants spe it) ->
+  if fire_later fm ty
+  then exists defs, has_pk pk defs = true /\
+         In (t, defs, att_due D fm t) (g_pend (ghost_after D spe fm (ginit t0) ((pre1 ++ mid) ++ [LTick t sc outs])))
+  else exists tr, In tr outs /\ t_ty tr = ty /\ t_slot tr = t /\ has_pk pk (t_defs tr) = true.
 Proof.
-  intros D spe HD Hs t0 ls s Hwf H pre1 mid t sc outs post it ty pk e E.
-  exact (assigned_is_triggered D spe t0 ls pre1 mid t sc outs post it ty pk e (run_monitor D spe HD Hs t0 ls s Hwf H) E).
+  intros D spe fm ff HD Hs t0 ls s Hwf H pre1 mid t sc outs post it ty pk e E.
+  exact (assigned_is_triggered D spe fm t0 ls pre1 mid t sc outs post it ty pk e (run_monitor D spe fm ff HD Hs t0 ls s Hwf H) E).
 Qed.
 Print Assumptions C15_trigger_exactly_once_if_resolved_before.
 
 (* ... and a resolution made on the slot's own tick counts: its attester answer is in the log the
    tick's triggers are computed from (likewise for the other answers, see gres). *)
-Theorem C15_resolved_on_own_tick : forall D spe t0 pre t rn sc' vals la,
-  optN_is (g_resolved (ghost_after D spe (ginit t0) pre)) (epoch_of spe t) = false ->
+Theorem C15_resolved_on_own_tick : forall D spe fm t0 pre t rn sc' vals la,
+  optN_is (g_resolved (ghost_after D spe fm (ginit t0) pre)) (epoch_of spe t) = false ->
   r_vals rn = Some vals -> filter (is_active (epoch_of spe t)) vals <> [] -> ok_res (r_att rn) = Some la ->
-  In (I KAtt (epoch_of spe t) t (filter (is_active (epoch_of spe t)) vals) la) (log_at D spe t0 pre t (rn :: sc')).
+  In (I KAtt (epoch_of spe t) t (filter (is_active (epoch_of spe t)) vals) la) (log_at D spe fm t0 pre t (rn :: sc')).
 Proof.
-  intros D spe t0 pre t rn sc' vals la Hr Hv Ha Hl.
-  apply (first_resolution_logged D spe t0 pre t rn sc'); [exact Hr | apply gres_att_item; assumption].
+  intros D spe fm t0 pre t rn sc' vals la Hr Hv Ha Hl.
+  apply (first_resolution_logged D spe fm t0 pre t rn sc'); [exact Hr | apply gres_att_item; assumption].
 Qed.
 Print Assumptions C15_resolved_on_own_tick.
 
@@ -137,49 +149,100 @@ Theorem C15_errors_only_delay_resolved : forall spe g slot rn,
 Proof. exact gres_resolved. Qed.
 Print Assumptions C15_errors_only_delay_resolved.
 
-Theorem C15_errors_only_delay_noop : forall spe g slot rn,
+Theorem C15_errors_only_delay_noop : forall spe fm g slot rn,
   (r_vals rn = None -> gres spe g slot rn = g) /\
   (ok_res (r_att rn) = None -> completes spe slot rn = false -> gres spe g slot rn = g) /\
-  (forall s s', r_vals rn = None -> resolve spe s slot rn = Some s' -> s' = s).
+  (forall s s', r_vals rn = None -> resolve spe fm s slot rn = Some s' -> s' = s).
 Proof.
-  intros spe g slot rn. split; [apply gres_vals_error_noop|]. split; [apply gres_att_error_noop|].
+  intros spe fm g slot rn. split; [apply gres_vals_error_noop|]. split; [apply gres_att_error_noop|].
   intros s s'. apply resolve_vals_error_noop.
 Qed.
 Print Assumptions C15_errors_only_delay_noop.
 
-Theorem C15_errors_only_delay_log : forall D spe g t sc outs,
-  exists more, g_log (gstep D spe g (LTick t sc outs)) = g_log g ++ more
+Theorem C15_errors_only_delay_log : forall D spe fm g t sc outs,
+  exists more, g_log (gstep D spe fm g (LTick t sc outs)) = g_log g ++ more
     /\ (forall it, In it more -> exists rn slot, In rn sc /\ (slot = t \/ slot = t + 1) /\ item_from spe it slot rn)
-    /\ g_trig (gstep D spe g (LTick t sc outs)) = g_trig g ++ map trig_duty outs
-    /\ g_now (gstep D spe g (LTick t sc outs)) = g_now g.
+    /\ g_trig (gstep D spe fm g (LTick t sc outs)) = g_trig g ++ map trig_duty outs
+    /\ g_now (gstep D spe fm g (LTick t sc outs)) = g_now g
+    /\ g_pend (gstep D spe fm g (LTick t sc outs)) = g_pend g ++ pend_for D spe fm (g_log (fst (g_first spe g t sc))) t types.
 Proof. exact gstep_tick_shape. Qed.
 Print Assumptions C15_errors_only_delay_log.
 
-Theorem C15_retry_until_resolved : forall D spe, 0 < D -> 0 < spe -> forall t0 ls s pre t sc outs post,
-  wf_trace spe ls = true -> run D spe (init D t0) ls = Some s -> ls = pre ++ LTick t sc outs :: post ->
-  (optN_is (g_resolved (ghost_after D spe (ginit t0) pre)) (epoch_of spe t) = false -> sc <> []) /\
-  (optN_is (g_resolved (ghost_after D spe (ginit t0) pre)) (epoch_of spe t) = true ->
+Theorem C15_retry_until_resolved : forall D spe fm ff, 0 < D -> 0 < spe -> forall t0 ls s pre t sc outs post,
+  wf_trace spe ls = true -> run D spe fm ff (init D t0) ls = Some s -> ls = pre ++ LTick t sc outs :: post ->
+  (optN_is (g_resolved (ghost_after D spe fm (ginit t0) pre)) (epoch_of spe t) = false -> sc <> []) /\
+  (optN_is (g_resolved (ghost_after D spe fm (ginit t0) pre)) (epoch_of spe t) = true ->
    last_in_epoch spe t = false -> sc = []).
 Proof. exact retry_until_resolved. Qed.
 Print Assumptions C15_retry_until_resolved.
 
+(* offset_respected under the feature flags fetch_att_on_block / fetch_att_on_block_with_delay.  What is
+   released early by a head event is only the call of the registered fetch-only function (LHead, not
+   constrained by the property).  The attester duty's subscribers are called by the waiting goroutine
+   (LFire): only for a duty that a tick put in waiting, with the definition set captured at that tick,
+   NOT before slot start + 1/3 slot (+300ms with the with_delay flag) -- whether or not a head event for
+   the slot was handled before, at or after the tick --, and never for a duty triggered before. *)
+Theorem C15_waiting_fires : forall D spe fm ff, 0 < D -> 0 < spe -> forall t0 ls s,
+  wf_trace spe ls = true -> run D spe fm ff (init D t0) ls = Some s ->
+  forall pre slot defs post, ls = pre ++ LFire slot defs :: post ->
+  exists w, In w (g_pend (ghost_after D spe fm (ginit t0) pre)) /\ w_slot w = slot /\
+    slot * D + att_offset D fm <= now_after D spe fm t0 pre /\
+    (forall x, In x defs <-> In x (w_defs w)) /\ ~ In (Attester, slot) (trig_duties pre).
+Proof.
+  intros D spe fm ff HD Hs t0 ls s Hwf H pre slot defs post E.
+  exact (waiting_fires D spe fm t0 ls pre slot defs post (run_monitor D spe fm ff HD Hs t0 ls s Hwf H) E).
+Qed.
+Print Assumptions C15_waiting_fires.
+
+Theorem C15_att_offset : forall D,
+  att_offset D FOff = D * 1 / 3 /\ att_offset D FOn = D * 1 / 3 /\ att_offset D FOnDelay = D * 1 / 3 + 300000000.
+Proof. intro D. unfold att_offset. repeat split; apply N.add_0_r. Qed.
+Print Assumptions C15_att_offset.
+
+(* ... and the waiting duty IS released: at a quiescent point no waiting duty is due, so a duty waiting
+   after [pre] whose release instant has passed at a later quiescent point was released in between. *)
+Theorem C15_waiting_released : forall D spe fm ff, 0 < D -> 0 < spe -> forall t0 ls s,
+  wf_trace spe ls = true -> run D spe fm ff (init D t0) ls = Some s ->
+  forall pre mid post w, ls = pre ++ mid ++ LQuiet :: post ->
+  In w (g_pend (ghost_after D spe fm (ginit t0) pre)) -> w_due w <= now_after D spe fm t0 (pre ++ mid) ->
+  exists defs, In (LFire (w_slot w) defs) mid.
+Proof.
+  intros D spe fm ff HD Hs t0 ls s Hwf H pre mid post w E.
+  exact (waiting_released D spe fm HD Hs t0 ls pre mid post w (run_monitor D spe fm ff HD Hs t0 ls s Hwf H) E).
+Qed.
+Print Assumptions C15_waiting_released.
+
+(* Non-vacuity with fetch_att_on_block on: a head event between the delivery of tick 1 and its dispatch
+   gets the early fetch; the attester duty is still released only at slot start + 1/3 slot; the same
+   history with the subscribers called at the tick is rejected by the monitor (and by the model). *)
+Theorem C15_flags_example_accepted :
+  (exists s, run 12 4 FOn true (init 12 0) ex_flags_trace = Some s) /\ wf_trace 4 ex_flags_trace = true
+  /\ monitor 12 4 FOn 0 ex_flags_trace = true.
+Proof. exact ex_flags_trace_accepted. Qed.
+Print Assumptions C15_flags_example_accepted.
+
+Theorem C15_flags_early_release_rejected :
+  monitor 12 4 FOn 0 ex_flags_early_trace = false /\ run 12 4 FOn true (init 12 0) ex_flags_early_trace = None.
+Proof. exact ex_flags_early_release_rejected. Qed.
+Print Assumptions C15_flags_early_release_rejected.
+
 (* ticker_monotone: delivered slots strictly increase (missed slots are skipped, none is repeated),
    no slot is delivered before it starts or before the start slot; and at every quiescent point the
    most recent tick is the tick of the current slot (no due tick is missing). *)
-Theorem C15_ticker_monotone : forall D spe, 0 < D -> 0 < spe -> forall t0 ls s,
-  run D spe (init D t0) ls = Some s ->
+Theorem C15_ticker_monotone : forall D spe fm ff, 0 < D -> 0 < spe -> forall t0 ls s,
+  run D spe fm ff (init D t0) ls = Some s ->
   StronglySorted N.lt (tick_slots ls) /\
   (forall pre t sc outs post, ls = pre ++ LTick t sc outs :: post -> t * D <= clock_after t0 pre /\ t0 / D <= t).
 Proof. exact ticker_monotone. Qed.
 Print Assumptions C15_ticker_monotone.
 
-Theorem C15_quiet_current_slot_ticked : forall D spe, 0 < D -> 0 < spe -> forall t0 ls s pre post,
-  run D spe (init D t0) ls = Some s -> ls = pre ++ LQuiet :: post ->
+Theorem C15_quiet_current_slot_ticked : forall D spe fm ff, 0 < D -> 0 < spe -> forall t0 ls s pre post,
+  run D spe fm ff (init D t0) ls = Some s -> ls = pre ++ LQuiet :: post ->
   last_tick pre None = Some (clock_after t0 pre / D).
 Proof. exact quiet_current_slot_ticked. Qed.
 Print Assumptions C15_quiet_current_slot_ticked.
 
-Theorem C15_clock : forall D spe t0 pre, now_after D spe t0 pre = clock_after t0 pre.
+Theorem C15_clock : forall D spe fm t0 pre, now_after D spe fm t0 pre = clock_after t0 pre.
 Proof. exact now_after_clock. Qed.
 Print Assumptions C15_clock.
 
@@ -187,7 +250,7 @@ Print Assumptions C15_clock.
    last slot of the epoch (one failing at the validators call, one at the attester call), a skipped
    tick and a reorg is accepted by the model, well formed, and passes the monitor. *)
 Theorem C15_example_accepted :
-  (exists s, run 12 4 (init 12 0) ex_trace = Some s) /\ wf_trace 4 ex_trace = true /\ monitor 12 4 0 ex_trace = true.
+  (exists s, run 12 4 FOff false (init 12 0) ex_trace = Some s) /\ wf_trace 4 ex_trace = true /\ monitor 12 4 FOff 0 ex_trace = true.
 Proof. exact ex_trace_accepted. Qed.
 Print Assumptions C15_example_accepted.
 
@@ -195,7 +258,7 @@ Print Assumptions C15_example_accepted.
    (which the correspondence check validates on such answers too) accepts a history in which an
    assigned duty is never triggered. *)
 Theorem C15_off_epoch_answer_drops_duty :
-  (exists s, run 12 4 (init 12 0) off_epoch_trace = Some s) /\ wf_trace 4 off_epoch_trace = false
-  /\ monitor 12 4 0 off_epoch_trace = false.
+  (exists s, run 12 4 FOff false (init 12 0) off_epoch_trace = Some s) /\ wf_trace 4 off_epoch_trace = false
+  /\ monitor 12 4 FOff 0 off_epoch_trace = false.
 Proof. exact off_epoch_answer_drops_duty. Qed.
 Print Assumptions C15_off_epoch_answer_drops_duty.
